@@ -3,6 +3,10 @@ package c13
 
 import (
 	"context"
+	"crypto"
+	_ "crypto/md5"
+	_ "crypto/sha1"
+	_ "crypto/sha256"
 	"encoding/binary"
 	"errors"
 	"fmt"
@@ -15,6 +19,9 @@ import (
 	pow1 "github.com/wollac/iota-crypto-demo/pkg/pow"
 	pow2 "github.com/wollac/iota-crypto-demo/pkg/pow/v2"
 	"pgregory.net/rapid"
+
+	_ "golang.org/x/crypto/blake2s"
+	_ "golang.org/x/crypto/ripemd160"
 
 	"verifharness/h"
 )
@@ -35,6 +42,7 @@ type runCase struct {
 	DelayUs int    `json:"delay_us"`
 	Spins   int    `json:"spins"`
 	Data    h.B    `json:"data"`
+	Hash    uint   `json:"hash,omitempty"` // PoW v1 only: crypto.Hash to install in pow.Hash for this call (0 = default)
 }
 
 func msgOf(data []byte, nonce uint64) []byte {
@@ -108,6 +116,14 @@ func mineAndJudge(c runCase) (time.Duration, error) {
 
 	// the context of an uncancelled call stays uncancelled until the caller has counted goroutines:
 	// a goroutine that Mine leaves waiting for the context is a leak although it would end with it
+	if c.Hash != 0 && c.Version == 1 {
+		if !crypto.Hash(c.Hash).Available() || crypto.Hash(c.Hash).Size() > 32 {
+			return 0, fmt.Errorf("PRECONDITION: hash %d", c.Hash)
+		}
+		old := pow1.Hash
+		pow1.Hash = crypto.Hash(c.Hash)
+		defer func() { pow1.Hash = old }()
+	}
 	ctx, cancel := context.WithCancel(context.Background())
 	pendingCancels = append(pendingCancels, cancel)
 	cancelled := make(chan struct{})
@@ -117,6 +133,12 @@ func mineAndJudge(c runCase) (time.Duration, error) {
 		doCancel()
 	case "delay":
 		go func() { time.Sleep(time.Duration(c.DelayUs) * time.Microsecond); doCancel() }()
+	case "deadline":
+		// the context ends by its deadline (ctx.Err() == DeadlineExceeded), nobody calls cancel
+		var cancel2 context.CancelFunc
+		ctx, cancel2 = context.WithTimeout(ctx, time.Duration(c.DelayUs)*time.Microsecond)
+		pendingCancels = append(pendingCancels, cancel2)
+		go func() { <-ctx.Done(); close(cancelled) }()
 	case "race":
 		go func() {
 			// yield a drawn number of times, but never longer than 20 ms in total: with GOMAXPROCS = 1
@@ -357,9 +379,13 @@ func genRun(t *rapid.T) runCase {
 	}
 	c.Target = []string{"every-lane", "easy", "moderate", "unattainable"}[h.Pick(t, "target", 3, 3, 2, 3)]
 	if c.Target == "unattainable" {
-		c.Cancel = []string{"before", "delay", "race"}[h.Pick(t, "cancel", 1, 3, 2)]
+		c.Cancel = []string{"before", "delay", "race", "deadline"}[h.Pick(t, "cancel", 1, 3, 2, 2)]
 	} else {
-		c.Cancel = []string{"never", "before", "delay", "race"}[h.Pick(t, "cancel", 2, 1, 2, 4)]
+		c.Cancel = []string{"never", "before", "delay", "race", "deadline"}[h.Pick(t, "cancel", 2, 1, 2, 4, 1)]
+	}
+	// the digest function is a package-level setting of PoW v1: shorter digests move the nonce inside the block
+	if c.Version == 1 && h.Pick(t, "hash", 4, 1) == 1 {
+		c.Hash = uint(h.OneOf(t, "hashid", crypto.SHA1, crypto.MD5, crypto.SHA224, crypto.RIPEMD160, crypto.SHA256, crypto.BLAKE2s_256))
 	}
 	c.DelayUs = rapid.IntRange(0, 5000).Draw(t, "delay")
 	c.Spins = rapid.IntRange(0, 3000).Draw(t, "spins")
@@ -371,6 +397,6 @@ func TestRuns(t *testing.T) {
 		Prop: "C13", Name: subName, N: 320,
 		Gen: genRun, Check: checkRun,
 		Require: []string{"v1/every-lane/race", "v2/every-lane/race", "v1/unattainable/delay", "v2/unattainable/delay", "v1/moderate/race", "v2/moderate/race", "v1/easy/before", "v2/easy/never"},
-		Rule:    "configurations {v1, v2} x workers {1,2,3,4,8,16,32,64} x GOMAXPROCS {1,2,4,16} x target {every lane qualifies, easy, moderate (~3^8 hashes), unattainable} x cancellation {never, before the call, after 0..5 ms, racing with the find after 0..3000 scheduler yields}; (err == nil and Score >= target) or (cancellation error and ctx cancelled); returns within 45 s of cancellation (expected ms); no goroutine with a pkg/pow frame alive 5 s after return; binary built with -race (any report is a violation); non-trivial = >= 2 workers and (cancellation used or every-lane target); distinct by configuration",
+		Rule:    "configurations {v1, v2} x workers {1,2,3,4,8,16,32,64} x GOMAXPROCS {1,2,4,16} x target {every lane qualifies, easy, moderate (~3^8 hashes), unattainable} x cancellation {never, before the call, after 0..5 ms, racing with the find after 0..3000 scheduler yields, by a context deadline} x (v1) digest function {default, SHA-1, MD5, SHA-224, RIPEMD-160, SHA-256, BLAKE2s}; (err == nil and Score >= target) or (cancellation error and ctx cancelled); returns within 45 s of cancellation (expected ms); no goroutine with a pkg/pow frame alive 5 s after return; binary built with -race (any report is a violation); non-trivial = >= 2 workers and (cancellation used or every-lane target); distinct by configuration",
 	})
 }
